@@ -77,8 +77,8 @@ def selftest(prop, tier, tree, known, batches, first_results):
         for row in again["rows"]:
             checked += 1
             if orig.get(row[0]) != row[1]:
-                raise HarnessError("determinism self-test failed: run %d on %s gave digest %s then %s" % (row[0], interp, orig.get(row[0]), row[1]))
-    return checked
+                return checked, "determinism self-test failed: run %d on %s gave digest %s then %s" % (row[0], interp, orig.get(row[0]), row[1])
+    return checked, None
 
 
 def run(prop, tier, selftest_only=False):
@@ -91,15 +91,19 @@ def run(prop, tier, selftest_only=False):
     print("[%s] tier=%s seed=%d batches=%d runs=%d workers=%d" % (prop, tier, seed, len(batches), sum(len(b["runs"]) for b in batches), WORKERS))
     keep_every = max(1, len(batches) // 3)
 
+    def keep_of(b):
+        return [b["runs"][0][0]] if b["b"] % keep_every == 0 else []
+
     def do(b):
-        keep = [b["runs"][0][0]] if b["b"] % keep_every == 0 else []
-        return run_batch(prop, tier, tree, known, b, keep)
+        return run_batch(prop, tier, tree, known, b, keep_of(b))
 
     with ThreadPoolExecutor(max_workers=WORKERS) as ex:
         results = list(ex.map(do, batches))
     by_b = {r["b"]: r for r in results}
-    n_checked = selftest(prop, tier, tree, known, batches, by_b)
+    n_checked, selftest_error = selftest(prop, tier, tree, known, batches, by_b)
     if selftest_only:
+        if selftest_error:
+            raise HarnessError(selftest_error)
         print("[%s] determinism self-test ok (%d runs re-executed)" % (prop, n_checked))
         return 0
 
@@ -117,7 +121,7 @@ def run(prop, tier, selftest_only=False):
         per_interp[b["interp"]] = per_interp.get(b["interp"], 0) + len(r["rows"])
         shim = shim or r.get("shim")
         for v in r["violating"]:
-            v["_interp"], v["_hashseed"], v["_b"] = b["interp"], b["hashseed"], b["b"]
+            v["_interp"], v["_hashseed"], v["_b"], v["_batch"] = b["interp"], b["hashseed"], b["b"], b
             violating.append(v)
         samples.extend(r["samples"])
     rows.sort()
@@ -153,14 +157,24 @@ def run(prop, tier, selftest_only=False):
         if not ok and small is not None:
             ops = [op for op in v["ops"] if not op.get("skipped")]
             ok = m.test_many([ops])[0]
+        rec = {"property": prop, "engine": "A", "fingerprint": f, "interp": v["_interp"], "hashseed": v["_hashseed"], "tier": tier,
+               "base_seed": seed, "run_index": v["run"], "run_seed": v["seed"], "detail": viol, "cfg": v.get("cfg"),
+               "ops_before_minimisation": len(v["ops"]), "minimiser_tests": m.tests, "ops": ops}
         if not ok:
-            unconfirmed.append((f, v["run"], v["seed"]))
-            continue
+            # second level (DESIGN 3.2): the violation needs state left behind by earlier runs of the batch
+            # (library process-global state, or address reuse): re-execute the original batch job literally
+            bt = v["_batch"]
+            job = {"engine": "A", "prop": prop, "tree": "<scratch>", "tier": tier, "mode": "batch", "runs": bt["runs"], "known": sorted(known), "keep_ops_for": keep_of(bt)}
+            again = run_batch(prop, tier, tree, known, bt, keep_of(bt))
+            hit = any(f in [x["fingerprint"] for x in vr["violations"]] for vr in again["violating"] if vr["run"] == v["run"])
+            if not hit:
+                unconfirmed.append((f, v["run"], v["seed"]))
+                continue
+            rec.update({"mode": "batch", "cross_run_state": True, "job": job,
+                        "note": "does not reproduce as a single run in a fresh process; reproduces when the whole batch is re-executed"})
         path = os.path.join(hubutil.VERIF, "replays", "%s-%s-run%d.json" % (prop, prng.derive(f) % (10 ** 8), v["run"]))
         with open(path, "w") as fh:
-            json.dump({"property": prop, "engine": "A", "fingerprint": f, "interp": v["_interp"], "hashseed": v["_hashseed"], "tier": tier,
-                       "base_seed": seed, "run_index": v["run"], "run_seed": v["seed"], "detail": viol, "cfg": v.get("cfg"),
-                       "ops_before_minimisation": len(v["ops"]), "minimiser_tests": m.tests, "ops": ops}, fh, indent=1)
+            json.dump(rec, fh, indent=1)
         print("VIOLATION property=%s replay=%s" % (prop, path))
         print("  fingerprint=%s interp=%s hashseed=%s run=%d ops=%d (from %d)" % (f, v["_interp"], v["_hashseed"], v["run"], len(ops), len(v["ops"])))
         reported += 1
@@ -169,6 +183,12 @@ def run(prop, tier, selftest_only=False):
         # a non-replayable alarm is never raised: harness error instead
         print("HARNESS-ERROR: %d violation(s) did not reproduce in a fresh process: %s" % (len(unconfirmed), unconfirmed[:3]))
         exit_code = 2
+    if selftest_error:
+        if reported:
+            print("note: %s -- results of the library depend on state no seed controls (see the replayable violations above)" % selftest_error)
+        else:
+            print("HARNESS-ERROR: " + selftest_error)
+            exit_code = 2
 
     wall = time.time() - t0
     fault_counts = {k: v for k, v in counters.items() if k.startswith("fault_")}
